@@ -72,7 +72,7 @@ theorem initValue_ok {d es tail} (h : Rep d es tail) (k : Key) (hk : k ∉ keys 
     simp [posOf, fresh, valuePos, positionBack, entryLen]; omega
   unfold initValue
   simp only [entryBytes_eq k hklen, bind, Except.bind, initValueEffects, List.foldlM_cons, List.foldlM_nil,
-    initValueStep, growKind, encEntry_length, fresh, hg, foldl_Fx_truncate, hfold, Fx.sliceWrite, pure, Except.pure]
+    initValueStep, growKind, encEntry_length, fresh, entryReserve, Nat.add_zero, hg, foldl_Fx_truncate, hfold, Fx.sliceWrite, pure, Except.pure]
   have c1 : d.used + entryLen k ≤ lastCap d.capacity caps := hneed
   have c2 : 0 + (le 4 (d.used + entryLen k)).length ≤ lastCap d.capacity caps := by simp; omega
   simp only [fresh] at hst
